@@ -25,8 +25,16 @@ Record case := {
                                               answers, by (time, relay) -- whether or not vouch still held the line *)
   c_dropped : list (Z * N * N);            (* the entries of c_calls whose request vouch had aborted (context ended)
                                               before the answer was ready: the answer never reached vouch *)
-  c_stuck : bool                           (* goroutines of the call were still blocked, for good, after the call had
+  c_stuck : bool;                          (* goroutines of the call were still blocked, for good, after the call had
                                               returned and every mock had been released *)
+  (* later BuilderBid calls of the beacon node for the auction's slot / parent / proposer, made on the
+     same blockrelay service after the operations of the mode (modes MAuction / MQuery only) *)
+  c_late_at : list Z;                      (* input/observed: the instants of these calls (ms since the auction started) *)
+  c_late_relays : list relay;              (* input: the same relays with what they answer to requests made by the
+                                              later calls (bids that were not there during the auction) *)
+  c_late_served : list (option N);         (* observed: what these calls answered: uid or no bid *)
+  c_late_reqs : list (Z * N * N)           (* observed, relay-side: the requests that these calls made to relays
+                                              (instant of arrival, relay, number), answered or not *)
 }.
 
 Definition obs_part_eqb (a b : obs_part) : bool :=
@@ -46,6 +54,19 @@ Definition strategy_runs (c : case) : bool :=
   | _, [] => false
   | _, _ => true
   end.
+
+(* the situations at the later BuilderBid calls *)
+Definition late_nows (c : case) : list (strategy * list relay) :=
+  match c_mode c with
+  | MStrategy => []
+  | _ => map (fun t => (shift (c_strat c) t, c_late_relays c)) (c_late_at c)
+  end.
+
+Definition late_match (c : case) (st : state) : bool :=
+  let lq := late_queries (c_cfgs c) (auction_cache (c_relays c) st) (late_nows c) in
+  list_eqb (option_eqb N.eqb) (map fst lq) (c_late_served c)
+  (* no request reaches a relay unless the model's BuilderBid runs an auction *)
+  && (existsb snd lq || match c_late_reqs c with [] => true | _ => false end).
 
 Definition results_match (c : case) (st : state) : bool :=
   option_eqb obs_part_eqb (option_map proj_part (st_win st)) (c_win c)
@@ -68,7 +89,8 @@ Definition agree (c : case) : bool :=
   && existsb (fun ord =>
                 let st := if runs then result_of (c_cfgs c) s ord else init in
                 (if c_has_results c then results_match c st else true)
-                && list_eqb (option_eqb N.eqb) (served (c_mode c) rs st) (c_served c))
+                && list_eqb (option_eqb N.eqb) (served (c_mode c) rs st) (c_served c)
+                && late_match c st)
              (linearizations (all_events s rs)).
 
 (* ------------------------------------------------------------------------------------------ *)
@@ -163,10 +185,31 @@ Definition served_consistent (c : case) : bool :=
           else true)
   end.
 
+(* what the auction decided, as observed: the winner of the returned Results, else (BuilderBid on an
+   empty cache returns no Results) the answer of the call that ran the auction *)
+Definition auction_outcome (c : case) : option (option N) :=
+  if c_has_results c then Some (option_map (fun w => snd w) (c_win c))
+  else match c_served c with s :: _ => Some s | [] => None end.
+
+(* the later BuilderBid calls for the auction's key: each serves the best bid that was on time and
+   eligible DURING the auction, or no bid -- never a bid that a relay has only now (its uid is not
+   among the candidates) -- and the same as what the auction decided *)
+Definition late_ok (c : case) : bool :=
+  match c_mode c with
+  | MStrategy => true
+  | _ =>
+      forallb (served_ok c) (c_late_served c)
+      && match auction_outcome c with
+         | Some o => forallb (fun s => option_eqb N.eqb s o) (c_late_served c)
+         | None => true
+         end
+  end.
+
 Definition P_b (c : case) : bool :=
   negb (c_panic c)
   && (if c_has_results c then win_ok c && providers_ok c && allp_ok c else true)
-  && served_consistent c.
+  && served_consistent c
+  && late_ok c.
 
 Definition mismatches (cs : list case) : list N := failing_ids c_id agree cs.
 Definition violations (cs : list case) : list N := failing_ids c_id P_b cs.
